@@ -167,7 +167,7 @@ class Point:
         # Case 3: self.x == other.x, self.y == other.y
         else:
             # if the tangent is vertical (y == 0), the result is the point at infinity
-            if self.y.num == 0:
+            if self.y == 0 * self.x:
                 return self.__class__(None, None, self.a, self.b)
             # Formula (x3,y3)=(x1,y1)+(x1,y1)
             # s=(3*x1**2+a)/(2*y1)
